@@ -130,7 +130,7 @@ def prove(L, hyps, goal, budget_ms, use_cvc5=True, extra=(), find_models=False):
             if r == z3.sat:
                 return "sat", f"z3(seed {seed})", total, s2, ""
     if use_cvc5 and L.k is None:
-        ans, ms2 = _cvc5_check(s, min(budget_ms, 6000))
+        ans, ms2 = _cvc5_check(s, 15000 if budget_ms >= 10000 else min(budget_ms, 6000))   # generous: a busy machine must not flip a verdict
         total += ms2
         if ans == "unsat":
             return "unsat", "cvc5", total, s, ""
